@@ -32,7 +32,7 @@
 
 typedef struct { char name[12]; int a[14]; int na; } op_t;
 
-typedef struct { unsigned long seq; char kind; int H; char *msg; } ev_t;
+typedef struct { unsigned long seq; char kind; int H; int code; char *msg; } ev_t;
 
 typedef struct {
   int tid, nops;
@@ -107,14 +107,16 @@ static int hidx(thr_t *t, tjhandle h)
   return -1;
 }
 
-static void ev_add(thr_t *t, char kind, int H, const char *msg)
+static void ev_add2(thr_t *t, char kind, int H, const char *msg, int code);
+static void ev_add(thr_t *t, char kind, int H, const char *msg) { ev_add2(t, kind, H, msg, -1); }
+static void ev_add2(thr_t *t, char kind, int H, const char *msg, int code)
 {
   if (!ev_on || (H < 0 && kind != 'T' && kind != 'Q')) return;
   if (kind == 'C') { if (t->lastc == H) return; t->lastc = H; } else t->lastc = -1;
   if (t->nev == t->capev) { t->capev = t->capev ? t->capev * 2 : 256; t->ev = (ev_t *)realloc(t->ev, t->capev * sizeof(ev_t)); }
   ev_t *e = &t->ev[t->nev++];
   e->seq = __atomic_fetch_add(&ev_seq, 1, __ATOMIC_RELAXED);
-  e->kind = kind; e->H = H; e->msg = msg ? strdup(msg) : NULL;
+  e->kind = kind; e->H = H; e->code = code; e->msg = msg ? strdup(msg) : NULL;
   if (e->msg) for (char *q = e->msg; *q; q++) if (*q == '\n') *q = '|';
 }
 
@@ -228,7 +230,7 @@ static tjhandle tj_init(int type) { own_new(); in_lib = iso_on; tjhandle h = tj3
 #define CKZ(h, e) ({ own_set(h); in_lib = iso_on; size_t r_ = (e); in_lib = 0; ev_sz(t, (h), r_); })
 static int ev_rc(thr_t *t, tjhandle h, int rc)
 {
-  if (rc < 0) ev_add(t, 'F', hidx(t, h), tj3GetErrorStr(h)); else ev_add(t, 'C', hidx(t, h), NULL);
+  if (rc < 0) ev_add2(t, 'F', hidx(t, h), tj3GetErrorStr(h), tj3GetErrorCode(h)); else ev_add(t, 'C', hidx(t, h), NULL);
   return rc;
 }
 static void *ev_ptr(thr_t *t, tjhandle h, void *p) { ev_rc(t, h, p ? 0 : -1); return p; }
@@ -384,8 +386,10 @@ static void errinfo(thr_t *t, tjhandle h, const char *tag)
 {
   own_set(h);
   const char *m = tj3GetErrorStr(h);
-  logf_(t, "  %s err=\"%s\" code=%d", tag, m, tj3GetErrorCode(h));
+  int code = tj3GetErrorCode(h);
+  logf_(t, "  %s err=\"%s\" code=%d", tag, m, code);
   ev_add(t, 'G', hidx(t, h), m);
+  ev_add2(t, 'K', hidx(t, h), NULL, code);
 }
 
 static void free_slot(thr_t *t, int s)
@@ -973,7 +977,7 @@ int main(int argc, char **argv)
   if (getenv("C15_EVENTS"))
     for (int i = 0; i < nthreads; i++)
       for (int j = 0; j < T[i].nev; j++)
-        printf("EV %lu %d %c %d %s\n", T[i].ev[j].seq, i, T[i].ev[j].kind, T[i].ev[j].H, T[i].ev[j].msg ? T[i].ev[j].msg : "");
+        printf("EV %lu %d %c %d %d %s\n", T[i].ev[j].seq, i, T[i].ev[j].kind, T[i].ev[j].H, T[i].ev[j].code, T[i].ev[j].msg ? T[i].ev[j].msg : "");
   for (int i = 0; i < nthreads; i++) {
     clog[i] = T[i].log ? T[i].log : strdup(""); clen[i] = T[i].loglen; cown[i] = T[i].ownfail;
     memcpy(cmsg[i], T[i].ownmsg, sizeof(cmsg[i]));
